@@ -56,6 +56,11 @@ func tarOf(files []tarFile) (b []byte, streamOff int64) {
 	return buf.Bytes(), streamOff
 }
 
+// plainLayer hides the optional Descriptor() method of in-memory tarball layers: an image
+// pulled from a registry derives its layer descriptors from the raw manifest, and
+// validate.Image insists that both views agree.
+type plainLayer struct{ ggcr.Layer }
+
 func layerOf(tarBytes []byte) ggcr.Layer {
 	l, err := tarball.LayerFromOpener(func() (io.ReadCloser, error) {
 		return io.NopCloser(bytes.NewReader(tarBytes)), nil
@@ -63,7 +68,35 @@ func layerOf(tarBytes []byte) ggcr.Layer {
 	if err != nil {
 		panic(err)
 	}
-	return l
+	return plainLayer{l}
+}
+
+// asPulled rebuilds an in-memory image the way it looks after a registry round trip: same
+// layers, layer annotations and config file; descriptors derived from the manifest only.
+func asPulled(img ggcr.Image) (ggcr.Image, error) {
+	m, err := img.Manifest()
+	if err != nil {
+		return nil, err
+	}
+	layers, err := img.Layers()
+	if err != nil {
+		return nil, err
+	}
+	cf, err := img.ConfigFile()
+	if err != nil {
+		return nil, err
+	}
+	out := emptyImage
+	for i, l := range layers {
+		var ann map[string]string
+		if i < len(m.Layers) && len(m.Layers[i].Annotations) > 0 {
+			ann = m.Layers[i].Annotations
+		}
+		if out, err = mutate.Append(out, mutate.Addendum{Layer: plainLayer{l}, Annotations: ann}); err != nil {
+			return nil, err
+		}
+	}
+	return mutate.ConfigFile(out, cf)
 }
 
 // flakyLayer fails the failCall-th Uncompressed() read at byte failAt of the uncompressed tar
